@@ -1,6 +1,7 @@
 from __future__ import annotations
 
 import dataclasses
+import os
 from collections import namedtuple
 from dataclasses import dataclass
 from itertools import count
@@ -97,6 +98,19 @@ class BasicBlock:
             )
             for expr in body
         ]
+
+        if os.environ.get("FORMAK_VERIF") == "1":
+            # verification hook (off by default): keep the symbolic post-CSE
+            # program that was just compiled, for translation validation
+            cse_on = self._config.common_subexpression_elimination
+            self._verif_program = (
+                list(self._arglist),
+                [
+                    (temporary, simplify(expr) if cse_on else expr)
+                    for temporary, expr in prefix
+                ],
+                [simplify(expr) if cse_on else expr for expr in body],
+            )
 
     def execute(self, *args, **kwargs):
         # Note: The list of statements is ordered and can get CSE or reordered within the block because we know it is straight calculation without control flow (a basic block)
